@@ -1,5 +1,11 @@
 // C10: util::AsyncPipe under the cooperative scheduler (engine S).
 // usage: harness <buff_size> <min> <max> <pattern> <bound> [--replay picks]
+//
+// <pattern> is a decimal code  O L A :
+//   A = pattern % 10          append pattern of the (last) session, see pattern()
+//   L = (pattern / 10) % 10   life cycle of the pipe object, see scenario()
+//   O = (pattern / 100) % 10  0: setCallback() then initialize();  1: initialize() then setCallback() (what log::AsyncSink and
+//                             trace::Sink do) - in every session
 #include "sched/sched.h"
 #include "sched/explore.h"
 #include <tbox/util/async_pipe.cpp>     // included as source: access to AsyncPipe::Impl
@@ -9,11 +15,14 @@
 
 using tbox::util::AsyncPipe;
 namespace {
-// append patterns: per producer a list of strings (distinct letters so the parse of the output is unambiguous)
+// append patterns: per producer a list of strings (distinct letters so the parse of the output is unambiguous).
+// A string that starts with '+' is handed over as ONE record in two lockless appends under appendLock()/appendUnlock()
+// ('|' is the split point; either part may be empty). "" is a zero-length append (trace::Sink does that for empty names).
 struct Pattern { std::vector<std::vector<std::string>> prod; };
 Pattern pattern(int id, int bs) {
+  static const char A1[] = "abcdefgh0123456789";                                      // 18 distinct symbols: no chunk of big1 repeats for bs <= 6
   std::string big1(3 * bs, 'q'), big2(bs + 1, 'w'), eq(bs, 'e');
-  for (size_t i = 0; i < big1.size(); i++) big1[i] = (char)('a' + i % 8);          // a..h
+  for (size_t i = 0; i < big1.size(); i++) big1[i] = A1[i % 18];
   for (size_t i = 0; i < big2.size(); i++) big2[i] = (char)('i' + i % 8);          // i..p
   for (size_t i = 0; i < eq.size(); i++) eq[i] = (char)('q' + i % 6);              // q..v
   switch (id) {
@@ -22,7 +31,10 @@ Pattern pattern(int id, int bs) {
     case 2: return {{{big2}, {"XYZ"}}};                   // two producers
     case 3: return {{{"A", big2}, {eq, "B"}}};            // two producers, two appends each
     case 4: return {{{big1}, {"X"}, {"Y"}}};              // three producers
-    case 5: return {{{"+" + big2 + "|" + eq}, {"XYZ"}}};    // producer 0 hands its record over in two lockless appends under appendLock()/appendUnlock() ('+' marks it, '|' is the split point)
+    case 5: return {{{"+" + big2 + "|" + eq}, {"XYZ"}}};    // producer 0 hands its record over in two lockless appends ('+' marks it, '|' is the split point)
+    case 6: return {{{"", eq, "", "Y", ""}}};             // one producer: zero-length appends before any buffer was fetched, right after a buffer
+                                                          // was filled exactly (no current buffer, pool possibly exhausted) and as the last call
+    case 7: return {{{"+|" + big2, "+|", "+" + eq + "|"}, {"", "XY"}}};   // two producers: lockless parts of length 0 (first / both / second), empty append
     default: return {{{"A"}}};
   }
 }
@@ -31,46 +43,77 @@ void dump() {
   if (!g_pipe || !g_pipe->impl_) return; auto *i = g_pipe->impl_;
   sched_note("DUMP pipe: stop=%d inited=%d curr=%p free=%zu full=%zu buff_num=%zu", (int)i->stop_signal_, (int)i->inited_, (void *)i->curr_buffer_, i->free_buffers_.size(), i->full_buffers_.size(), i->buff_num_);
 }
-// patterns >= 10: the same AsyncPipe object is used for two sessions (initialize, appends, cleanup, twice - what log::AsyncSink does on
-// disable/enable); the first session is one 1-byte append, the second is pattern pat-10
-void scenario(int bs, int mn, int mx, int pat) {
-  std::vector<Pattern> sessions; if (pat >= 10) { sessions.push_back(Pattern{{{"S"}}}); pat -= 10; } sessions.push_back(pattern(pat, bs));
-  std::string out; int in_cb = 0; bool overlap = false; int cb_thread = -1; bool cb_thread_varies = false; size_t max_block = 0;
-  AsyncPipe pipe; g_pipe = &pipe; sched_on_deadlock(dump);
-  AsyncPipe::Config cfg; cfg.buff_size = bs; cfg.buff_min_num = mn; cfg.buff_max_num = mx; cfg.interval = 1000;
-  for (size_t si = 0; si < sessions.size(); si++) { Pattern &P = sessions[si]; out.clear(); g_pipe = &pipe;
-  // cleanup() drops the callback, so it is set before every initialize() (as log::AsyncSink does)
-  pipe.setCallback([&](const void *p, size_t n) {
+struct Session { int bs, mn, mx; Pattern pat; };
+// Life cycles (L):
+//   0  one session: [setCallback, initialize], producers, join, cleanup()
+//   1  two sessions on the same object with the same configuration (what log::AsyncSink does on disable/enable); the first is one 1-byte append
+//   3  like 0, but first every rejected configuration is offered to initialize() (buff_size 0, min 0, min > max, interval 0), with and
+//      without a cleanup() after the refusal (the retry idiom); cleanup() is called twice at the end. Whatever initialize() answers, every
+//      cleanup() must return and the real session must be lossless.
+//   4  like 0 on a heap object that is destroyed with the data still pending, without an explicit cleanup() (async_pipe.h: destroying
+//      the object stops the thread and hands all buffered data to the callback, i.e. destruction is a cleanup)
+//   5  two sessions with DIFFERENT configurations: the first is pattern 0 (fills buffers, grows the pool, blocks at the limit) under
+//      (2,2,3) when the second has buff_size 1, else under (1,1,1); the second is pattern A under the command-line configuration
+//   6  like 5, the first session under (1,1,3) when the second has buff_size > 1, else (2,1,3)   (pool grows by two, larger<->smaller buffers)
+void scenario(int bs, int mn, int mx, int code) {
+  const int app = code % 10, life = (code / 10) % 10, order = (code / 100) % 10;
+  std::vector<Session> sessions;
+  if (life == 1) sessions.push_back(Session{bs, mn, mx, Pattern{{{"S"}}}});
+  if (life == 5) sessions.push_back(bs == 1 ? Session{2, 2, 3, pattern(0, 2)} : Session{1, 1, 1, pattern(0, 1)});
+  if (life == 6) sessions.push_back(bs == 1 ? Session{2, 1, 3, pattern(0, 2)} : Session{1, 1, 3, pattern(0, 1)});
+  sessions.push_back(Session{bs, mn, mx, pattern(app, bs)});
+  std::string out; int in_cb = 0; bool overlap = false; size_t max_block = 0;
+  AsyncPipe *pp = new AsyncPipe; AsyncPipe &pipe = *pp; g_pipe = pp; sched_on_deadlock(dump);
+  auto sink = [&](const void *p, size_t n) {
     if (in_cb++) overlap = true;
-    if (cb_thread >= 0 && cb_thread != sched_self()) cb_thread_varies = true; cb_thread = sched_self();
     if (n > max_block) max_block = n;
     out.append((const char *)p, n);
     sched_point_here();                       // let other threads run while "inside" the sink callback
     in_cb--;
-  });
-  if (!pipe.initialize(cfg)) sched_fail("initialize failed");
-  std::vector<std::thread> th;
-  for (auto &lst : P.prod) th.emplace_back([&pipe, &lst] { for (auto &s : lst) {
-      if (!s.empty() && s[0] == '+') { size_t cut = s.find('|'); pipe.appendLock(); pipe.appendLockless(s.data() + 1, cut - 1); pipe.appendLockless(s.data() + cut + 1, s.size() - cut - 1); pipe.appendUnlock(); }
-      else pipe.append(s.data(), s.size()); } });
-  for (auto &t : th) t.join();
-  pipe.cleanup();                             // everything appended before this point must have been delivered on return
-  g_pipe = nullptr;
-  // ---- oracle: out must be an interleaving of the producers' append lists, each append contiguous, producer order kept
-  for (auto &lst : P.prod) for (auto &x : lst) if (!x.empty() && x[0] == '+') { x.erase(x.find('|'), 1); x.erase(0, 1); }      // what must come out: the two parts back to back
-  std::vector<size_t> next(P.prod.size(), 0); size_t pos = 0; bool ok = true;
-  while (pos < out.size() && ok) {
-    ok = false;
-    for (size_t p = 0; p < P.prod.size(); p++) if (next[p] < P.prod[p].size()) { const std::string &s = P.prod[p][next[p]];
-      if (out.compare(pos, s.size(), s) == 0) { pos += s.size(); next[p]++; ok = true; break; } }
+  };
+  if (life == 3) {
+    AsyncPipe::Config bad[4]; bad[0].buff_size = 0; bad[1].buff_min_num = 0; bad[2].buff_min_num = 3; bad[2].buff_max_num = 2; bad[3].interval = 0;
+    for (int k = 0; k < 4; k++) {
+      if (!order) pipe.setCallback(sink);
+      bool r = pipe.initialize(bad[k]); sched_note("bad-config %d: initialize=%d", k, (int)r);   // the answer itself is not part of the property
+      if (order) pipe.setCallback(sink);
+      if (r || k % 2 == 0) pipe.cleanup();    // must return (a pipe that accepted the configuration is cleaned up like any other)
+    }
   }
-  bool all = true; for (size_t p = 0; p < P.prod.size(); p++) if (next[p] != P.prod[p].size()) all = false;
-  sched_note("O%zu out=%s", si, out.c_str());
-  if (!ok) sched_fail("output-not-an-interleaving-of-contiguous-appends out=%s", out.c_str());
-  if (!all) sched_fail("data-lost-at-cleanup-return out=%s", out.c_str());
-  if (overlap) sched_fail("sink-callbacks-overlap");
-  if (max_block > (size_t)bs) sched_fail("block-larger-than-buffer");
+  for (size_t si = 0; si < sessions.size(); si++) { Session &S = sessions[si]; Pattern &P = S.pat; out.clear(); max_block = 0; g_pipe = pp;
+    AsyncPipe::Config cfg; cfg.buff_size = S.bs; cfg.buff_min_num = S.mn; cfg.buff_max_num = S.mx; cfg.interval = 1000;
+    // cleanup() drops the callback, so it is set again in every session
+    if (!order) pipe.setCallback(sink);
+    if (!pipe.initialize(cfg)) sched_fail("initialize failed");
+    if (order) pipe.setCallback(sink);
+    std::vector<std::thread> th;
+    for (auto &lst : P.prod) th.emplace_back([&pipe, &lst] { for (auto &s : lst) {
+        if (!s.empty() && s[0] == '+') { size_t cut = s.find('|'); pipe.appendLock(); pipe.appendLockless(s.data() + 1, cut - 1); pipe.appendLockless(s.data() + cut + 1, s.size() - cut - 1); pipe.appendUnlock(); }
+        else pipe.append(s.data(), s.size()); } });
+    for (auto &t : th) t.join();
+    // everything appended before this point must have been delivered when cleanup (or the destructor) returns
+    if (life == 4) { g_pipe = nullptr; delete pp; pp = nullptr; }
+    else { pipe.cleanup(); if (life == 3) pipe.cleanup(); }
+    g_pipe = nullptr;
+    // ---- oracle: out must be an interleaving of the producers' append lists, each append contiguous, producer order kept
+    std::vector<std::vector<std::string>> want;
+    for (auto &lst : P.prod) { want.emplace_back(); for (auto x : lst) {
+        if (!x.empty() && x[0] == '+') { x.erase(x.find('|'), 1); x.erase(0, 1); }      // what must come out: the two parts back to back
+        if (!x.empty()) want.back().push_back(x); } }                                    // a zero-length append contributes nothing
+    std::vector<size_t> next(want.size(), 0); size_t pos = 0; bool ok = true;
+    while (pos < out.size() && ok) {
+      ok = false;
+      for (size_t p = 0; p < want.size(); p++) if (next[p] < want[p].size()) { const std::string &s = want[p][next[p]];
+        if (out.compare(pos, s.size(), s) == 0) { pos += s.size(); next[p]++; ok = true; break; } }
+    }
+    bool all = true; for (size_t p = 0; p < want.size(); p++) if (next[p] != want[p].size()) all = false;
+    sched_note("O%zu out=%s", si, out.c_str());
+    if (!ok) sched_fail("output-not-an-interleaving-of-contiguous-appends out=%s", out.c_str());
+    if (!all) sched_fail("data-lost-at-cleanup-return out=%s", out.c_str());
+    if (overlap) sched_fail("sink-callbacks-overlap");
+    if (max_block > (size_t)S.bs) sched_fail("block-larger-than-buffer");
   }
+  delete pp;
 }
 }  // namespace
 
